@@ -159,6 +159,9 @@ func (a *Act) callFn(st *State, callee *ssa.Function, args []Val, env []Val, pos
 				targs = targs[1:] // arguments without the receiver, like for interface calls
 			}
 			at := st.heap(traceLen, "Int")
+			if callee.Signature.Recv() != nil && len(args) > 0 {
+				a.traceSlot(st, cname+"_recv", "T_recv_"+cname, at, args[0])
+			}
 			a.traceEvent(st, fc, cname, targs, pos, Val{}, types.NewSignatureType(nil, nil, nil, nil, nil, false))
 			res := a.callFn1(st, callee, args, env, pos, sig)
 			a.traceResult(st, cname, at, res)
@@ -174,16 +177,23 @@ func (a *Act) traceResult(st *State, name string, at Term, res Val) {
 	if res.Tuple != nil && len(res.Tuple) > 0 {
 		r0 = res.Tuple[0]
 	}
-	if r0.Loc != nil || r0.Tuple != nil || r0.T == "" || r0.Typ == nil {
+	a.traceSlot(st, name+"_res", "T_res_"+name, at, r0)
+	if res.Tuple != nil && len(res.Tuple) > 1 {
+		a.traceSlot(st, name+"_res1", "T_res1_"+name, at, res.Tuple[1])
+	}
+}
+
+// traceSlot stores one value of a traced call (receiver, result) in a ghost array indexed by event.
+func (a *Act) traceSlot(st *State, key, h string, at Term, v Val) {
+	if v.Loc != nil || v.Tuple != nil || v.T == "" || v.Typ == nil {
 		return
 	}
 	if a.u.traceArgType == nil {
 		a.u.traceArgType = map[string]types.Type{}
 	}
-	a.u.traceArgType[name+"_res"] = r0.Typ
-	h := "T_res_" + name
-	hs := "(Array Int " + a.u.D.SortOf(r0.Typ) + ")"
-	st.setHeap(h, hs, store(st.heap(h, hs), at, r0.T))
+	a.u.traceArgType[key] = v.Typ
+	hs := "(Array Int " + a.u.D.SortOf(v.Typ) + ")"
+	st.setHeap(h, hs, store(st.heap(h, hs), at, v.T))
 }
 
 func (a *Act) callFn1(st *State, callee *ssa.Function, args []Val, env []Val, pos tokenPos, sig *types.Signature) Val {
